@@ -8,7 +8,7 @@ usage: /venv/bin/python c41_parse.py <repo> < cases.json
 output (one line per case, space separated integers, same encoding as Model/SchemaLang.v `outcome`):
   0 <dump of the schema>      parse_string returned a Schema
   1 <line>                    SchemaError
-  2 <code> <class name>       any other exception (1 IndexError, 2 KeyError, 3 RecursionError, 9 other)
+  2 <code> <class name>       any other exception (1 IndexError, 2 KeyError, 3 RecursionError, 5 TypeError, 9 other)
 first line:  CAL <offset> <default recursion limit>   (frames below _validate = limit - offset)
 """
 import json
@@ -144,7 +144,7 @@ def make_dump(M):
     return dump
 
 
-EXN = {'IndexError': 1, 'KeyError': 2, 'RecursionError': 3}
+EXN = {'IndexError': 1, 'KeyError': 2, 'RecursionError': 3, 'TypeError': 5}
 
 
 def run_one(M, dump, text):
